@@ -274,6 +274,39 @@ def expand_power(spec, rings, nduct=1):
 
 
 # ----------------------------------------------------------------------
+class capture_log(object):
+    """context manager: collect dassh log records (>= ERROR) without printing;
+    use `.errors` afterwards.  Logging is otherwise disabled by the harness."""
+
+    def __init__(self, level=None):
+        import logging
+        self.level = logging.ERROR if level is None else level
+        self.errors = []
+
+    def __enter__(self):
+        import logging
+        cap = self
+
+        class H(logging.Handler):
+            def emit(self, record):
+                if record.levelno >= cap.level:
+                    try:
+                        cap.errors.append(record.getMessage())
+                    except Exception:
+                        cap.errors.append(str(record.msg))
+        self.h = H(level=0)
+        self.root = logging.getLogger()
+        self.root.addHandler(self.h)
+        logging.disable(logging.NOTSET)
+        return self
+
+    def __exit__(self, *a):
+        import logging
+        logging.disable(logging.CRITICAL)
+        self.root.removeHandler(self.h)
+        return False
+
+
 class Built(object):
     """A scenario materialised in a private directory."""
 
